@@ -118,8 +118,8 @@ func Spec(prop, tier string) *core.CheckSpec {
 			Property: "C18", Level: "exploration",
 			Rule: "seeded scripts creating tables with __gc and userdata with a Go release hook (with or without __gc), kept or dropped, resurrecting themselves, inside nested limited contexts left normally / by error / by kill and unlimited contexts sharing the parent's pool; the simulated collector lets the real Go GC prove unreachability but delivers each pool finaliser callback at a tape-chosen instant (at collectgarbage, at any host callback, much later, just before Close, after Close); oracle over the recorded history per value id: finalised at most once and exactly once by the time the owner closes (never after a kill), released exactly once and after its finaliser, reverse marking order at close, never finalised while referenced. non-trivial = at least one finaliser callback was delivered by the simulated collector",
 			Batches: []core.Batch{
-				{Engine: "gc", Mode: "", Runs: n(3000, 300000), Millis: ms(40000, 900000), Chunk: 300, HangS: 60, Retries: 5},
-				{Engine: "gc", Mode: "", Variant: "safepool", Runs: n(1500, 150000), Millis: ms(25000, 600000), Chunk: 300, HangS: 60, Workers: 8, Retries: 5},
+				{Engine: "gc", Mode: "", Runs: n(8000, 300000), Millis: ms(50000, 900000), Chunk: 300, HangS: 60, Retries: 5},
+				{Engine: "gc", Mode: "", Variant: "safepool", Runs: n(4000, 150000), Millis: ms(40000, 600000), Chunk: 300, HangS: 60, Workers: 8, Retries: 5},
 			},
 			Real:   realAll,
 			Stub:   []string{"the instant and order at which Go finalizers of pool values are delivered (simulated collector behind the luagc setFinalizer seam); reachability itself is decided by the real Go GC"},
